@@ -259,8 +259,27 @@ def rand_history(rnd, n):
     return revs
 
 
+def digraphs(n, names=NAMES):
+    """every history on n revisions where each ordered pair (i, j), i != j, is nothing / down_revision / depends_on:
+    cyclic ones included (the loader must refuse them: C15 inside the command)"""
+    pairs = [(i, j) for i in range(n) for j in range(n) if i != j]
+    for combo in itertools.product(range(3), repeat=len(pairs)):
+        revs = [{"id": names[i], "down": [], "deps": [], "labels": []} for i in range(n)]
+        for (i, j), c in zip(pairs, combo):
+            if c == 1:
+                revs[i]["down"].append(names[j])
+            elif c == 2:
+                revs[i]["deps"].append(names[j])
+        yield revs
+
+
 def generate(up, tier, seed):
     rnd = random.Random(seed * 31 + (1 if up else 2))
+    # histories with cycles: all on 2 revisions, sampled (thorough: all) on 3
+    hs = list(digraphs(2)) + (list(digraphs(3)) if tier == "thorough" else rnd.sample(list(digraphs(3)), 80))
+    for revs in hs:
+        for t in ([revs[0]["id"], "heads", "head"] if up else [revs[0]["id"], "base", "-1"]):
+            yield {"cmd": {"revs": revs, "rows": [], "up": up, "target": t}}
     # exhaustive small scope: every history of <=3 revisions x every antichain state x every target spelling
     for n in (1, 2, 3):
         for revs in small_histories(n):
